@@ -2,7 +2,7 @@
 import os
 import re
 
-from ..cfgq import bool_edges, cond_tree, explore, promoted_tree, stmt_loc
+from ..cfgq import bool_edges, cond_tree, explore, promoted_tree, stmt_loc, variant_edges
 from ..facts import AnchorError, Origins, callee_name, method_name, mname, peel, strip_mods, TRANSPARENT
 from ..fmtq import FmtError, pieces
 from . import escape_tables
@@ -346,10 +346,15 @@ def _escape_pair_values(ctx, g, o):
 def _raw_copy_guarded(ctx, g, o, bb, back):
     bs = _bs_edges(g, o)
     mem, _ = _member_edges(ctx, g, o)
-    if not bs or not mem:
+    # membership tests whose result is not branched on directly (folded into a bool, or computed by an inlined helper) are decided by hypothesis
+    mem_calls = [cb for cb, t in g.calls() if method_name(callee_name(t, resolved=False) or "") in ("slice::contains", "contains")]
+    if not bs or not (mem or mem_calls):
         return False
     without_bs = explore(g, 0, removed_edges=list(back) + bs)
-    without_mem = explore(g, 0, removed_edges=list(back) + mem)
+    if mem_calls:
+        without_mem = explore(g, 0, removed_edges=list(back), assume={c_: False for c_ in mem_calls})
+    else:
+        without_mem = explore(g, 0, removed_edges=list(back) + mem)
     return bb not in without_bs and bb not in without_mem and bb in explore(g, 0, removed_edges=list(back))
 
 
@@ -403,29 +408,67 @@ def r4_7(ctx):
             pl = t["args"][1].get("copy") or t["args"][1].get("move")
             if pl is not None and f.canon_place(pl) == ch:
                 keeps.append(bb)
-    kept = set()
-    sources = []
-    for bi, t in sws:
-        if bi == ib:
-            continue
-        for v, tg in t["targets"]:
-            if any(tg == k or (f.blocks[tg]["term"]["k"] == "goto" and f.succ(tg) == [k]) for k in keeps):
-                kept.add(chr(int(v)))
-        sources.append("match arms")
-    for bb, t in f.calls():
-        if mname(t) in ("str::contains", "slice::contains") and len(t["args"]) == 2:
-            hay = peel(o.operand(t["args"][0]))
-            lit = hay.a.as_str() if hay.kind == "const" else None
-            if lit is None and hay.kind == "const":
-                pt = promoted_tree(prog, f, hay.a)
-                if pt is not None:
-                    lit = "".join(k.a.as_char() or "" for k in pt.walk() if k.kind == "const" and k.a.as_char())
-            be = bool_edges(f, t["target"])
-            if lit is not None and be and any(k in f.reachable(be[0], removed_edges=f.back_edges()) for k in keeps):
-                kept |= set(lit)
-                sources.append("contains(%r)" % lit)
-    letters = any(mname(t) in ("char::is_ascii_alphabetic", "char::is_alphabetic", "char::is_ascii_alphanumeric") for _, t in f.calls()) or \
-        any(st["k"] == "assign" and st["rv"]["k"] == "bin" and st["rv"]["op"] in ("Le", "Ge", "Lt", "Gt") for b in f.blocks for st in b["stmts"])
+    # which characters keep their backslash: decided per character by folding the CFG with `ch == '\\\\'` and `ch2 == c` (arms, guards, a
+    # `contains` on a constant string, or a predicate helper that was inlined all fold the same way)
+    from ..casefold import cases
+    reads = [(bb, t) for bb, t in f.calls() if mname(t) == "Iterator::next" and bb in f.reachable(bs_target, removed_edges=f.back_edges())]
+    if len(reads) != 1:
+        raise AnchorError("cleanup_unrecognized_escape_sequences: the read of the escaped character was not found")
+    rb, rt = reads[0]
+    ve2, rv2 = variant_edges(f, rt["target"])
+    if ve2 is None or "Some" not in ve2:
+        raise AnchorError("cleanup_unrecognized_escape_sequences: the escaped character is not matched")
+    ch2 = None
+    for st in f.blocks[ve2["Some"]]["stmts"]:
+        if st["k"] == "assign" and not st["lhs"]["p"] and st["rv"]["k"] == "use":
+            src = st["rv"]["op"].get("copy") or st["rv"]["op"].get("move")
+            if src and src["l"] == rt["dest"]["l"] and src["p"]:
+                ch2 = st["lhs"]["l"]
+    if ch2 is None:
+        raise AnchorError("cleanup_unrecognized_escape_sequences: the local holding the escaped character was not found")
+    heads = {h for _, h in f.back_edges()}
+    kept, sources = set(), ["case folding over %d characters" % 0]
+
+    def keeps_backslash(c):
+        def valmap(pl):
+            if pl["p"]:
+                return None
+            if pl["l"] == ch2:
+                return ord(c)
+            if f.canon_place(pl) == ch:
+                return 92
+            return None
+
+        def oracle(t, val):
+            m = mname(t)
+            if m in ("str::contains", "slice::contains") and len(t["args"]) == 2:
+                hay = peel(o.operand(t["args"][0]))
+                lit = hay.a.as_str() if hay.kind == "const" else None
+                if lit is None and hay.kind == "const":
+                    pt = promoted_tree(prog, f, hay.a)
+                    if pt is not None:
+                        lit = "".join(k.a.as_char() or "" for k in pt.walk() if k.kind == "const" and k.a.as_char())
+                v = val(t["args"][1])
+                if lit is not None and v is not None:
+                    return int(chr(v) in lit)
+            if m in ("char::is_ascii_alphabetic", "char::is_alphabetic"):
+                pl = t["args"][0].get("copy") or t["args"][0].get("move")
+                cp = f.canon_place({"l": pl["l"], "p": list(pl["p"]) + ["*"]}) if pl else None
+                if cp is not None and cp == f.canon_place({"l": ch2, "p": []}):
+                    return int(c.isalpha() and c.isascii())
+            return None
+        verdicts = set()
+        for r in cases(f, valmap, oracle, start=ve2["Some"], max_visits=1):
+            path = r["path"]
+            stop = next((i for i, b_ in enumerate(path) if b_ in heads and i > 0), len(path))
+            verdicts.add(any(b_ in keeps for b_ in path[:stop]))
+        return verdicts == {True}
+    probe = sorted(set("[]{}()|?*+-.^$\\") | set("dwsDWSbBnrtAzx") | set("!#%&',/:;<=>@_`~\" 0"))
+    for c in probe:
+        if keeps_backslash(c):
+            kept.add(c)
+    sources = ["case folding over %d characters" % len(probe)]
+    letters = all(c in kept for c in "dwsDWSbB")
     need = set("[]{}()|?*+-.^$\\")
     missing = sorted(need - kept)
     ctx.check(bool(keeps), "cleanup:keep-site", f.where(), "the pass re-emits the backslash for recognised escapes (%d site(s))" % len(keeps),
